@@ -37,10 +37,21 @@
 (* and overflow is an error, pixman uses 64 bit intermediates in the edge  *)
 (* arithmetic: products n * dx are therefore never formed; MulDivMod       *)
 (* computes quotient and remainder of n * dx by dy exactly by binary       *)
-(* decomposition.  DOMAIN: |coordinates| < 2^29 (8192 pixels), so that     *)
-(* every difference is below 2^30, and edges whose abscissa, extrapolated  *)
-(* to a sampled row or by one grid step, stays inside the 32-bit range     *)
-(* (pixman wraps there; such edges are excluded by the property's domain). *)
+(* decomposition.  DOMAIN of the walker record: |coordinates| < 2^29 (8192  *)
+(* pixels), so that every difference is below 2^30, and edges whose        *)
+(* abscissa, extrapolated to a sampled row or by one grid step, stays      *)
+(* inside the 32-bit range (pixman wraps there; such edges are excluded by *)
+(* the property's domain).                                                 *)
+(*  - WIDE EDGES: end points anywhere in the 16.16 range.  Their deltas    *)
+(*    need 33 bits, which neither a TLC integer nor a pixman_edge_t holds. *)
+(*    For them the specification is the MATHEMATICAL LINE itself: LinePos  *)
+(*    is floor and remainder of (y - yt) (xb - xt) / (yb - yt), computed   *)
+(*    exactly on two-limb numbers; LineX the abscissa with the meaning the *)
+(*    walker has (lemma WalkerMeaning); the cursor WCur* steps it from     *)
+(*    sample row to sample row.  mc/TrapMC.tla (WideAgrees) proves on the  *)
+(*    lattice that cursor and walker agree on every row of every edge, so  *)
+(*    both describe one line; an implementation that narrows the deltas    *)
+(*    (e.g. halves them, truncating) is rejected (TrapMC_neg_halve.cfg).   *)
 (*                                                                         *)
 (* QUIRKS.  The walker of the specification is PATH INDEPENDENT: the state *)
 (* of an edge on a row does not depend on the row the walk began on (lemma *)
@@ -248,6 +259,119 @@ LineEdgeInitQ(n, y, line, xoff, yoff, q) ==
     IN  EdgeInitQ(n, y, tx + xo, ty + yo, bx + xo, by + yo, q)
 
 -----------------------------------------------------------------------------
+(* WIDE EDGES: exact arithmetic on 33-bit deltas.                                             *)
+(* A wide integer <<h, l>> is h * WideBase + l with 0 <= l < WideBase, h of either sign       *)
+(* (a unique representation: equal numbers are equal tuples).  The operations below keep     *)
+(* every TLC integer far inside 32 bits for numbers below 2^34 in magnitude.                  *)
+WideBase    == 65536               \* even; mc/TrapMC replaces it by a small base to exercise the carries
+WNorm(h, l) == <<h + (l \div WideBase), l % WideBase>>
+WOf(v)      == WNorm(0, v)
+WSmall(v)   == WNorm(0, v)
+WZero       == <<0, 0>>
+WAdd(a, b)  == WNorm(a[1] + b[1], a[2] + b[2])
+WSub(a, b)  == WNorm(a[1] - b[1], a[2] - b[2])
+WNeg(a)     == WNorm(-a[1], -a[2])
+WLess(a, b) == a[1] < b[1] \/ (a[1] = b[1] /\ a[2] < b[2])
+WDouble(a)  == WAdd(a, a)
+WHalf(a)    == <<a[1] \div 2, ((a[1] % 2) * WideBase + a[2]) \div 2>>          \* floor (a / 2), a >= 0
+WOdd(a)     == a[2] % 2 = 1
+WInt(a)     == a[1] * WideBase + a[2]                                          \* the number itself, when it fits
+WAbsDiff(u, v) == IF u < v THEN WSub(WOf(v), WOf(u)) ELSE WSub(WOf(u), WOf(v)) \* |u - v| of two TLC integers
+WBit(c)     == WSmall(IF c THEN 1 ELSE 0)
+
+(* <<q, r>> with a = q d + r, 0 <= r < d  (a >= 0, d > 0) *)
+RECURSIVE WDivMod(_, _)
+WDivMod(a, d) ==
+    IF WLess(a, d) THEN <<WZero, a>>
+    ELSE LET h  == WDivMod(WHalf(a), d)
+             r2 == WAdd(WDouble(h[2]), WBit(WOdd(a)))
+             c  == ~WLess(r2, d)
+         IN  <<WAdd(WDouble(h[1]), WBit(c)), IF c THEN WSub(r2, d) ELSE r2>>
+
+(* <<q, r>> with a b = q d + r, 0 <= r < d  (a >= 0, 0 <= b < d) *)
+RECURSIVE WMulDivMod(_, _, _)
+WMulDivMod(a, b, d) ==
+    IF a = WZero \/ b = WZero THEN <<WZero, WZero>>
+    ELSE LET h  == WMulDivMod(WHalf(a), b, d)
+             r2 == WDouble(h[2])
+             c2 == ~WLess(r2, d)
+             r3 == WAdd(IF c2 THEN WSub(r2, d) ELSE r2, IF WOdd(a) THEN b ELSE WZero)
+             c3 == ~WLess(r3, d)
+         IN  <<WAdd(WAdd(WDouble(h[1]), WBit(c2)), WBit(c3)), IF c3 THEN WSub(r3, d) ELSE r3>>
+
+RECURSIVE WMul(_, _)
+WMul(a, b) ==                                                                  \* a, b >= 0
+    IF a = WZero \/ b = WZero THEN WZero
+    ELSE LET h == WDouble(WMul(a, WHalf(b))) IN IF WOdd(b) THEN WAdd(h, a) ELSE h
+
+(* The deltas the line is followed with: the end points' own.  (An implementation whose edge  *)
+(* record cannot hold them may only replace them by a pair with the same ratio.)              *)
+WideDeltas(DX, DY) == <<DX, DY>>
+
+(* <<F, R>>: floor and remainder of  +-K * |DX| / DY  (neg: the product is negative), where    *)
+(* sd = <<|DX| div DY, |DX| mod DY>>;  F * DY + R = +-K |DX|,  0 <= R < DY                     *)
+SignedPos(K, sd, DY, neg) ==
+    LET qr == WMulDivMod(K, sd[2], DY)
+        Q  == WAdd(WMul(K, sd[1]), qr[1])
+    IN  IF ~neg THEN <<Q, qr[2]>>
+        ELSE IF qr[2] = WZero THEN <<WNeg(Q), WZero>>
+        ELSE <<WSub(WNeg(Q), WSmall(1)), WSub(DY, qr[2])>>
+PosAdd(pos, inc, DY) ==
+    LET r == WAdd(pos[2], inc[2]) IN
+    IF WLess(r, DY) THEN <<WAdd(pos[1], inc[1]), r>>
+    ELSE <<WAdd(WAdd(pos[1], inc[1]), WSmall(1)), WSub(r, DY)>>
+
+(* the abscissa an edge walker holds on a row where the exact intersection is                 *)
+(* X = xt + F + R / DY:  floor (X) for an edge running left, X for a whole-number slope,       *)
+(* ceil (X) - 1 for an edge running right with a fractional slope (fr)                         *)
+XFromPos(xt, fr, pos) ==
+    WInt(WAdd(WOf(xt), IF fr /\ pos[2] = WZero THEN WSub(pos[1], WSmall(1)) ELSE pos[1]))
+
+EdgeDeltas(xt, yt, xb, yb) == WideDeltas(WAbsDiff(xb, xt), WSub(WOf(yb), WOf(yt)))
+
+(* THE line through (xt, yt) and (xb, yb), yb > yt, on row y: any end points, any row of the 16.16 range *)
+LinePos(xt, yt, xb, yb, y) ==
+    LET dd == EdgeDeltas(xt, yt, xb, yb) IN
+    SignedPos(WAbsDiff(y, yt), WDivMod(dd[1], dd[2]), dd[2], (y < yt) # (xb < xt))
+LineX(xt, yt, xb, yb, y) ==
+    LET dd == EdgeDeltas(xt, yt, xb, yb)
+        sd == WDivMod(dd[1], dd[2])
+    IN  XFromPos(xt, xb >= xt /\ sd[2] # WZero, SignedPos(WAbsDiff(y, yt), sd, dd[2], (y < yt) # (xb < xt)))
+
+(* a cursor: the line positioned on row y, with the increments of one small / big grid step *)
+WCurInit(n, y, xt, yt, xb, yb) ==
+    LET dd   == EdgeDeltas(xt, yt, xb, yb)
+        sd   == WDivMod(dd[1], dd[2])
+        left == xb < xt
+    IN  [xt |-> xt, fr |-> ~left /\ sd[2] # WZero, DY |-> dd[2],
+         pos  |-> SignedPos(WAbsDiff(y, yt), sd, dd[2], (y < yt) # left),
+         incS |-> SignedPos(WSmall(StepYSmall(n)), sd, dd[2], left),
+         incB |-> SignedPos(WSmall(StepYBig(n)), sd, dd[2], left)]
+WCurX(c)         == XFromPos(c.xt, c.fr, c.pos)
+WCurStepSmall(c) == [c EXCEPT !.pos = PosAdd(c.pos, c.incS, c.DY)]
+WCurStepBig(c)   == [c EXCEPT !.pos = PosAdd(c.pos, c.incB, c.DY)]
+
+(* which edges the walker record covers (see DOMAIN above); the others are followed by a cursor *)
+NarrowLim  == 536870912
+NarrowV(v) == -NarrowLim < v /\ v < NarrowLim
+NarrowEdge(xt, yt, xb, yb, y) == NarrowV(xt) /\ NarrowV(yt) /\ NarrowV(xb) /\ NarrowV(yb) /\ NarrowV(y)
+
+(* an edge of a trapezoid on sample row y, as a walker record or as a cursor *)
+CursorQ(n, y, line, xoff, yoff, q, forcewide) ==
+    LET xo == xoff * Fixed1  yo == yoff * Fixed1
+        p1first == line[2] <= line[4]
+        tx == (IF p1first THEN line[1] ELSE line[3]) + xo
+        ty == (IF p1first THEN line[2] ELSE line[4]) + yo
+        bx == (IF p1first THEN line[3] ELSE line[1]) + xo
+        by == (IF p1first THEN line[4] ELSE line[2]) + yo
+    IN  IF ~forcewide /\ NarrowEdge(tx, ty, bx, by, y)
+        THEN [wide |-> FALSE, ed |-> EdgeInitQ(n, y, tx, ty, bx, by, q)]
+        ELSE [wide |-> TRUE, cu |-> WCurInit(n, y, tx, ty, bx, by)]
+CurX(c)     == IF c.wide THEN WCurX(c.cu) ELSE c.ed.x
+CurSmall(c) == IF c.wide THEN [c EXCEPT !.cu = WCurStepSmall(c.cu)] ELSE [c EXCEPT !.ed = EdgeStepSmall(c.ed)]
+CurBig(c)   == IF c.wide THEN [c EXCEPT !.cu = WCurStepBig(c.cu)] ELSE [c EXCEPT !.ed = EdgeStepBig(c.ed)]
+
+-----------------------------------------------------------------------------
 (* Coverage of one sample row: pixel p of a row receives the number of sample columns s of   *)
 (* that pixel with lx < s <= rx.                                                             *)
 
@@ -266,11 +390,11 @@ NextRowIsSmall(y, n) == Frac(y) # YLast(n)
 RECURSIVE WalkRows(_, _, _, _, _, _)
 WalkRows(l, r, y, b, n, acc) ==
     LET q    == ToInt(y)
-        acc1 == [acc EXCEPT ![q + 1] = Append(@, <<l.x, r.x>>)]
+        acc1 == [acc EXCEPT ![q + 1] = Append(@, <<CurX(l), CurX(r)>>)]
     IN  IF y = b THEN acc1
         ELSE IF NextRowIsSmall(y, n)
-             THEN WalkRows(EdgeStepSmall(l), EdgeStepSmall(r), y + StepYSmall(n), b, n, acc1)
-             ELSE WalkRows(EdgeStepBig(l), EdgeStepBig(r), y + StepYBig(n), b, n, acc1)
+             THEN WalkRows(CurSmall(l), CurSmall(r), y + StepYSmall(n), b, n, acc1)
+             ELSE WalkRows(CurBig(l), CurBig(r), y + StepYBig(n), b, n, acc1)
 
 RECURSIVE SumSpans(_, _, _, _)
 SumSpans(spans, k, p, n) ==
@@ -289,16 +413,17 @@ TrapValid(tz) == tz[4] # tz[6] /\ tz[8] # tz[10] /\ tz[2] > tz[1]
 
 (* rows of spans of a trapezoid on a W x H image of depth n at whole-pixel offset (xoff, yoff); *)
 (* top is clipped to the first, bottom to the last sample row of the image                    *)
-TrapRowsQ(tz, n, W, H, xoff, yoff, q) ==
+TrapRowsG(tz, n, W, H, xoff, yoff, q, forcewide) ==
     LET t0 == tz[1] + yoff * Fixed1
         t  == SampleCeilY(IF t0 < 0 THEN 0 ELSE t0, n)
         b0 == tz[2] + yoff * Fixed1
         b  == SampleFloorYQ(IF ToInt(b0) >= H THEN H * Fixed1 - 1 ELSE b0, n, q.wrap)
     IN  IF TrapValid(tz) /\ b >= t
-        THEN WalkRows(LineEdgeInitQ(n, t, <<tz[3], tz[4], tz[5], tz[6]>>, xoff, yoff, q),
-                      LineEdgeInitQ(n, t, <<tz[7], tz[8], tz[9], tz[10]>>, xoff, yoff, q),
+        THEN WalkRows(CursorQ(n, t, <<tz[3], tz[4], tz[5], tz[6]>>, xoff, yoff, q, forcewide),
+                      CursorQ(n, t, <<tz[7], tz[8], tz[9], tz[10]>>, xoff, yoff, q, forcewide),
                       t, b, n, NoSpans(H))
         ELSE NoSpans(H)
+TrapRowsQ(tz, n, W, H, xoff, yoff, q) == TrapRowsG(tz, n, W, H, xoff, yoff, q, FALSE)
 
 CoverageQ(tz, n, W, H, xoff, yoff, q) == CountsOf(TrapRowsQ(tz, n, W, H, xoff, yoff, q), n, W, H)
 (* THE definition the property talks about: samples of each pixel inside the trapezoid *)
